@@ -22,3 +22,6 @@ CHECKS['C11'] = (_SYMX + '; first-passage-percolation characterisation proved pe
 CHECKS['C09'] = (_SYMX + '; causal-validity assertions on transmissions vs node histories proved on every path',
                  'on every path of every full-data simulator configuration in the bound the transmission list is ordered, along edges, from an infectious source to a just-susceptible target, in bijection with infections, sourceless only for initial nodes, and (SIR) a forest',
                  'floats as reals; delays > 0 (a zero delay at tmin is unobservable in histories), ties otherwise allowed; graphs <= 3 (4) nodes; event bounds', 'DESIGN.md 6/C09')
+CHECKS['C10'] = (_SYMX + '; two runs per path with a replaying random source, step-function equality and status-at-symbolic-query-time proved by z3',
+                 'on every path both return modes consume the same draws and describe the same epidemic: summary = arrays as step functions, accessors = summary, histories well-formed, node_status/get_statuses correct for an arbitrary symbolic query time, subset summaries correct',
+                 'floats as reals; graphs <= 3 (4) nodes; event bounds; discrete-time simulators under a deterministic rule', 'DESIGN.md 6/C10')
